@@ -5,8 +5,9 @@
    back-off, C19) and the goroutine in which the handler runs; both are exercised by
    the harness against the real StreamManager and a scripted server. *)
 From Coq Require Import List ZArith NArith Bool Lia.
-From XV Require Import Lib.Sx Model.Manager Proofs.ManagerP.
+From XV Require Import Lib.Sx Model.Manager Proofs.ManagerP Model.Session Model.SessionSpec Proofs.SessionP Proofs.SessionSpecP.
 Import ListNotations.
+Open Scope nat_scope.
 
 (* After an abrupt drop or a graceful close of an established session, any number of
    refused / transiently failing attempts, then one successful attempt: exactly one
@@ -39,6 +40,46 @@ Theorem C13_stop_returns : forall s,
   m_phase s = MUp \/ m_phase s = MDead -> m_phase (m_step s (ETerm TStop)) = MReturned.
 Proof. exact stop_returns. Qed.
 
+(* ---- how Client.connect's outcome (Model/Session.v) maps onto the attempt kinds ---- *)
+(* the classification resume() relies on: xerrors.As(err, &ConnError) && Permanent *)
+Definition attempt_of (r : Session.result) : attempt :=
+  match r with
+  | Ok => AOk false
+  | Err true true => AFailPermanent
+  | Err _ _ => AFailTransient
+  end.
+
+(* a refused TCP connection is retried *)
+Theorem C13_dial_refused_transient : forall cfg tls p script,
+  attempt_of (res (connect cfg false tls p script)) = AFailTransient.
+Proof. reflexivity. Qed.
+
+(* TLS policy failure is permanent: cleartext not allowed and STARTTLS not offered,
+   refused, or failing certificate verification *)
+Theorem C13_tls_policy_permanent : forall cfg tls p id f rest,
+  c_insecure cfg = false ->
+  (f_tls f = TlsNone \/ (forall r, rest <> SProceed :: r) \/ tls = false) ->
+  attempt_of (res (connect cfg true tls p (SHeader id :: SFeatures f :: rest))) = AFailPermanent.
+Proof.
+  intros cfg tls p id f rest Hi H. unfold connect, res. cbn [negb read_header read_features]. rewrite Hi.
+  destruct (f_tls f) eqn:Et; [reflexivity| |].
+  all: destruct H as [H|[H|H]]; try discriminate.
+  all: destruct rest as [|[] r]; try reflexivity; cbn [read_proceed].
+  all: try (exfalso; eapply H; reflexivity).
+  all: try (rewrite H; reflexivity).
+  all: destruct tls; try reflexivity.
+Qed.
+
+(* rejected credentials are permanent (here: no STARTTLS offered, cleartext allowed;
+   after a TLS upgrade the same step function runs) *)
+Theorem C13_rejected_credentials_permanent : forall cfg chan p f rest m,
+  choose_mech (c_mechs cfg) (f_mechs f) = Some m -> implemented m = true ->
+  res (step_auth cfg chan p f (SSaslFailure :: rest)) = Err true true /\
+  attempt_of (res (step_auth cfg chan p f (SSaslFailure :: rest))) = AFailPermanent.
+Proof.
+  intros cfg chan p f rest m Hm Hi. unfold step_auth, res. rewrite Hm, Hi. split; reflexivity.
+Qed.
+
 Example C13_example :
   let s := m_run m_init [EAttempt (AOk false); ETerm TDrop; EAttempt ARefused; EAttempt ARefused;
                          EAttempt (AOk true); ETerm TClose; EAttempt AFailTransient; EAttempt (AOk false);
@@ -50,3 +91,6 @@ Print Assumptions C13_one_session_per_loss.
 Print Assumptions C13_post_connect_once_per_session.
 Print Assumptions C13_permanent_stops.
 Print Assumptions C13_stop_returns.
+Print Assumptions C13_dial_refused_transient.
+Print Assumptions C13_tls_policy_permanent.
+Print Assumptions C13_rejected_credentials_permanent.
